@@ -357,6 +357,7 @@ PROPS["C02"] = {"generate": c02_generate, "judge": c02_judge, "strata": algo_str
 # ---- C03
 def c03_generate(rng, tier):
     a = genhist.gen_rank(rng, count(tier, 150, 1500), nmax=count(tier, 5, 6), maxdeg=count(tier, 5, 7))
+    a += genhist.gen_rank_special(rng, count(tier, 120, 1500))
     if tier == "thorough":
         for s in a[:40]:
             s["pool"] = "real"
@@ -416,7 +417,7 @@ PROPS["C08"] = {"generate": c08_generate, "strata": algo_strata, "nontrivial": a
 
 # ---- C09
 def c09_generate(rng, tier):
-    a = gen_ewd_cases(rng, count(tier, 300, 4000), nmax=count(tier, 6, 8), viz_share=0.1)
+    a = gen_ewd_cases(rng, count(tier, 300, 4000), nmax=count(tier, 6, 8), viz_share=0.5)
     a += gen_chain_debt_cases(rng, count(tier, 60, 1000))
     a += gen_long_run_cases(rng, count(tier, 6, 40))
     return tag_cmp(a, ["orient", "indeg", "outdeg", "full", "verdict"])
